@@ -12,13 +12,13 @@ import gen_toml as G
 
 PROP = "C02"
 COQ_PROPS = "Props/C02.v"
-COQ_PROPS_EXTRA = ["Props/C02tokens.v", "Props/C02doc.v", "Props/C02front.v", "Props/C02front2.v", "Props/C02acc.v"]
-THEOREMS = ["Props/C02acc.v (25 theorems): the READ API of the decoded tree (Item / Value type_name, is_x, as_x, as_table_like, Item::get by key and index, Array::get, InlineTable::get, doc[k]; Model/Accessors.v from value.rs, item.rs, index.rs) reads that tree faithfully: kinds exclusive and exhaustive, every downcast answers exactly on its own kind with the stored scalar (C02acc_read_scalar), Item's duplicates are the value's own, type names = flags, lookups hand out what iteration hands out and never a placeholder, and on every accepted document doc[k] / Item::get(k) find every root entry (C02acc_parsed_root_lookup, through parse_WF)",
+COQ_PROPS_EXTRA = ["Props/C02tokens.v", "Props/C02doc.v", "Props/C02front.v", "Props/C02front2.v", "Props/C02acc.v", "Props/C02accv.v"]
+THEOREMS = ["Props/C02acc.v (25 theorems): the READ API of the decoded tree (Item / Value type_name, is_x, as_x, as_table_like, Item::get by key and index, Array::get, InlineTable::get, doc[k]; Model/Accessors.v from value.rs, item.rs, index.rs) reads that tree faithfully: kinds exclusive and exhaustive, every downcast answers exactly on its own kind with the stored scalar (C02acc_read_scalar), Item's duplicates are the value's own, type names = flags, lookups hand out what iteration hands out and never a placeholder, and on every accepted document doc[k] / Item::get(k) find every root entry (C02acc_parsed_root_lookup, through parse_WF); Props/C02accv.v (9 theorems): the same for toml::Value (Model/AccessorsToml.v from crates/toml/src/value.rs): same_type is exactly equality of type_str and an equivalence, flags = same_type against one probe per kind, every as_x answers exactly on its own constructor, get(i) / get(key) hand out the stored element / entry and None elsewhere",
             "C02_tree (Props/C02doc.v): for every accepted document and every valid derivation of its text the decoded tree is the tree the statements denote - keys, nesting, order, kinds, every scalar, exact decimals of floats, date-time fields; derivations agree",
             "Props/C02tokens.v: the value half of every token lemma (strings with all escapes, integers in four bases, floats as exact decimals, booleans, date-times); Props/C02front.v / C02front2.v: the toml::Value / Table front ends decode to the same data (names in coverage.theorem_names)"]
 RULE = ("valid abstract documents rendered in every spelling + per-spelling value tables; non-trivial = document with "
         ">= 2 values or a value using a non-canonical spelling; 30% of the documents are also read through the public accessors only "
-        "(command acc: the tree rebuilt from as_x payloads must equal the reference decoding, flags / type names / lookups consistent)")
+        "(commands acc / accv, the latter for toml::Value: the tree rebuilt from as_x payloads must equal the reference decoding, flags / type names / lookups consistent)")
 ASSUMPTIONS = ["floats: the exact decimal is fixed by the model; the final rounding is compared against Python's correctly rounded float()"]
 
 
@@ -163,6 +163,9 @@ def gen_cases(rng, tier):
             # the same document read through the public accessors only (Item / Value type_name, is_x, as_x,
             # Item::get by key and index, Array::get, InlineTable::get, doc["k"]); Model/Accessors.v
             out.append(Case("acc", [text], {"kind": "accessors", "expect": exp, "nvals": sum(1 for s in st if s[0] == "kv")}))
+        if rng.random() < 0.2:
+            # ... and toml::Value through ITS read API (type_str, same_type, is_x, as_x, get); Model/AccessorsToml.v
+            out.append(Case("accv", [text], {"kind": "accessors-toml", "expect": exp, "nvals": sum(1 for s in st if s[0] == "kv")}))
     return out
 
 
@@ -195,6 +198,9 @@ def oracle(case, line):
     if case.cmd == "acc":
         import accparse
         return accparse.judge(line, exp)
+    if case.cmd == "accv":
+        import accparse
+        return accparse.judge_tv(line, exp)
     if case.cmd == "docv":
         if not line.startswith("ok "):
             return "valid document rejected by toml::from_str::<Value>"
@@ -213,6 +219,8 @@ def compare(case, model_line, impl_line):
         return None if (m.split(" print=")[0] == impl_line.split(" print=")[0]) else "decoded trees differ"
     if case.cmd == "val":
         return None if (m.split(" print=")[0] == impl_line.split(" print=")[0]) else "decoded values differ"
+    if case.cmd == "accv" and model_line == "-":
+        return None          # a float in the document: the toml::Value model leaves the bits to std (FUnmodelled); the oracle still judges
     return None if m == impl_line else "differ"
 
 
